@@ -32,9 +32,6 @@ def split(stream, cuts):
         out.append(stream[prev:c])
         prev = c
     out.append(stream[prev:])
-    for n in ([125] if tier == "quick" else [124, 125, 123]):
-        out.append(Obl("chunk.ascii.rsp.max-size[%d].cuts1" % n, make_big_ascii(n), timeout=T * 2, contracts=("lrc",), lemmas=("K2",),
-                       bounds="ASCII framing, a %d-register read response (%d characters) followed by a short frame; unit, first and last registers symbolic, other registers a fixed pattern; one cut at each of ~20 positions incl. the last 10 of the big frame" % (n, 2 * (2 * n + 3) + 5)))
     return out
 
 
@@ -163,7 +160,9 @@ def obligations(tier):
     by = {S.name: S for S in pdu.all_specs()}
     out = [kernels.K1(tier), kernels.K2(tier)]
     combos = {
-        "req": [("WriteSingleRegisterRequest",), ("ReadCoilsRequest", "WriteSingleRegisterRequest")],
+        # (the last pair ends in a request without data: the shortest frame there is, 8 bytes on TCP)
+        "req": [("WriteSingleRegisterRequest",), ("ReadCoilsRequest", "WriteSingleRegisterRequest"),
+                ("WriteSingleRegisterRequest", "ReadExceptionStatusRequest")],
         "rsp": [("ReadHoldingRegistersResponse",), ("WriteSingleCoilResponse", "ReadHoldingRegistersResponse")],
     }
     if tier != "quick":
@@ -179,6 +178,8 @@ def obligations(tier):
                 for k in range(0, maxcuts + 1):
                     if tier == "quick" and framing == "ascii" and k == 2 and len(names) == 2:
                         continue      # two ASCII frames x every pair of cuts: thorough tier
+                    if tier == "quick" and names[-1] == "ReadExceptionStatusRequest" and k == 2:
+                        continue
                     name = "chunk.%s.%s.%s.cuts%d" % (framing, d, "+".join(n.replace("Request", "Rq").replace("Response", "Rs") for n in names), k)
                     out.append(Obl(name, make_chunk(framing, specs, shapes, k), timeout=T, contracts=contracts,
                                    lemmas=LEMMAS[framing], whole_finding=whole(framing, len(names), k),
